@@ -935,6 +935,12 @@ def run(c):
         "the initial-state NLP's choice among consistent states and IPOPT's convergence are not modelled",
         "delay() equations belong to property C16 and are not generated here",
         "exported CSV is written with 6 decimals (%f): file values compared to 5.1e-7 absolute",
+        "known finding F37: an `output` that pymoca eliminates as a constant assignment makes IOMixin.initialize raise "
+        "KeyError (generated models never assign a constant/known expression to a variable; dedicated probe)",
+        "known finding F38: an import series named like a state overwrites that state before every step (generated "
+        "import data only carries input columns, theorem hypothesis `SeriesWF`; dedicated probe)",
+        "a non-zero Modelica start attribute takes precedence over initial_state.csv (documented in "
+        "SimulationProblem.initialize): initial-state files are generated only for states without start attribute",
     ]
     c.prove()
     rng = c.rng
